@@ -10,9 +10,11 @@ import (
 	"errors"
 	"fmt"
 	"io"
+	"log/slog"
 	"net"
 	"os"
 	"path/filepath"
+	"runtime"
 	"strconv"
 	"sync"
 	"time"
@@ -22,6 +24,7 @@ import (
 	"github.com/postalsys/muti-metroo/internal/exit"
 	"github.com/postalsys/muti-metroo/internal/forward"
 	"github.com/postalsys/muti-metroo/internal/health"
+	"github.com/postalsys/muti-metroo/internal/identity"
 	"github.com/postalsys/muti-metroo/internal/protocol"
 	"github.com/postalsys/muti-metroo/internal/shell"
 	"github.com/postalsys/muti-metroo/internal/stream"
@@ -45,6 +48,11 @@ import (
 //	       fupmeta   Agent.UploadFile of a 1-byte file with an n-byte remote path (metadata, then content)
 //	       fdownmeta Agent.DownloadFile with an n-byte remote path (metadata request)
 //	    -> ok big=<frames on the wire with payload > MaxPayloadSize> parse=ok|bad
+//
+//	conc <n> <cap>   stdout and stderr (n bytes each, at most cap bytes per read) of ONE shell stream pumped concurrently by the
+//	       real pumpStdout / pumpStderr through a DataWriter that delays each send a little; the client opens the frames in
+//	       wire order with one stateful session key
+//	    -> ok rejected=<frames that did not open> stdout=equal|lost:<k>/<n> stderr=…
 //
 //	nf <path> <size>…   the application writes the given sizes (each Write chunked by the real meshConn.Write; shin: one
 //	       transfer cut into STDIN messages of the first size) and does NOT close; the far end must hold every byte
@@ -249,6 +257,13 @@ func c07bRun(line string) string {
 			p = "bad"
 		}
 		return fmt.Sprintf("ok big=%d parse=%s", big, p)
+	case "conc":
+		n, err1 := strconv.Atoi(f[1])
+		cp, err2 := strconv.Atoi(f[2])
+		if err1 != nil || err2 != nil || n < 0 || cp <= 0 {
+			return "bad-op"
+		}
+		return c07ConcRun(e, n, cp, sid)
 	case "nf":
 		var sizes []int
 		for _, t := range f[2:] {
@@ -597,6 +612,68 @@ func c07nfRun(e *c07Env, path string, sizes []int, sid uint64) string {
 	return "bad-op"
 }
 
+// c07SlowWriter is the shell handler's DataWriter: it delays every send by a pseudo-random few microseconds before
+// the frame reaches "the wire" (a list, in arrival order), as a peer connection under load does.
+type c07SlowWriter struct {
+	mu     sync.Mutex
+	r      *rng
+	frames [][]byte
+}
+
+func (w *c07SlowWriter) WriteStreamData(p identity.AgentID, sid uint64, data []byte, flags uint8) error {
+	w.mu.Lock()
+	d := w.r.intn(60)
+	w.mu.Unlock()
+	if d > 20 {
+		time.Sleep(time.Duration(d) * time.Microsecond)
+	} else {
+		runtime.Gosched()
+	}
+	w.mu.Lock()
+	w.frames = append(w.frames, append([]byte(nil), data...))
+	w.mu.Unlock()
+	return nil
+}
+func (w *c07SlowWriter) WriteStreamClose(p identity.AgentID, sid uint64) error { return nil }
+
+// c07ConcRun: stdout and stderr of one shell stream written concurrently through the real pumps; the client opens
+// the frames in wire order with one stateful key: every frame must open and each of the two byte streams must be
+// complete and in order.
+func c07ConcRun(e *c07Env, n, cap int, sid uint64) string {
+	out, errb := c07Data(n, sid), c07Data(n, sid+7)
+	w := &c07SlowWriter{r: newRng(int64(sid))}
+	h := shell.NewHandler(shell.NewExecutor(shell.DefaultConfig()), w, slog.New(slog.NewTextHandler(io.Discard, nil)))
+	keys := c07NewKeys(sid, false)
+	shell.C07PumpBoth(h, e.peer, sid, keys.send, &c07Src{data: out, cap: cap}, &c07Src{data: errb, cap: cap})
+	rk := keys.newRecv()
+	var gotO, gotE []byte
+	rejected := 0
+	for _, fr := range w.frames {
+		pt, err := rk.Decrypt(fr)
+		if err != nil {
+			rejected++
+			continue
+		}
+		mt, pl, derr := shell.DecodeMessage(pt)
+		if derr != nil {
+			continue
+		}
+		switch mt {
+		case shell.MsgStdout:
+			gotO = append(gotO, pl...)
+		case shell.MsgStderr:
+			gotE = append(gotE, pl...)
+		}
+	}
+	st := func(got, want []byte) string {
+		if bytes.Equal(got, want) {
+			return "equal"
+		}
+		return fmt.Sprintf("lost:%d/%d", len(want)-len(got), len(want))
+	}
+	return fmt.Sprintf("ok rejected=%d stdout=%s stderr=%s", rejected, st(gotO, out), st(gotE, errb))
+}
+
 func maxInt(a, b int) int {
 	if a > b {
 		return a
@@ -634,6 +711,16 @@ func c07bGen(w *bufio.Writer, seed int64, tier string) {
 			fmt.Fprintf(w, "%s %d\n", r.pickS("fw", "wf", "conn"), n)
 		} else {
 			fmt.Fprintf(w, "msg %s %d\n", r.pickS("shmsg", "ctrlreq", "ctrlresp"), n)
+		}
+	}
+	// two writers on ONE shell stream (stdout and stderr pumps running concurrently, sends delayed at random):
+	// the client must be able to open every frame in wire order
+	for _, c := range [][2]int{{60000, 100}, {100000, 257}, {20000, 16}} {
+		fmt.Fprintf(w, "conc %d %d\n", c[0], c[1])
+	}
+	if tier == "thorough" {
+		for i := 0; i < 20; i++ {
+			fmt.Fprintf(w, "conc %d %d\n", 20000+r.intn(100000), r.pick(16, 64, 100, 333, 1000, 4096))
 		}
 	}
 	// delivery WITHOUT a following FIN: the application writes, keeps the tunnel open and waits for the answer
